@@ -26,7 +26,9 @@ RULE = ("Hypothesis draws DAQmx files: 1-3 segments, 1-3 acquisition buffers of 
         'the chunk streams of all channels are also advanced in lock step with window reads of other channels in '
         'between.'
         ' Non-final DAQmx segments may end in an incomplete chunk (row model); raw_data of single-scaler raw channels '
-        'is checked.')
+        'is checked.'
+        ' Digital lines of signed 8-bit ports and of 16 / 32-bit ports (word aligned to its size, lines 0-7) are '
+        'generated.')
 ASSUMPTIONS = [
     "independent encoder's DAQmx index layout (scaler records of 20 bytes / 17 bytes for digital lines, width vector)",
     "channels whose scalers sit in buffers of different lengths, timestamp scalers and multi-byte digital-line types are "
